@@ -274,7 +274,8 @@ other("C19", "Proved: log_child_histories (non-verbose): exactly one line per ge
       "predicate hist_ok); one iteration of the generation loop of info_for_single_file (non-verbose): a generation without a record for the "
       "path prints nothing, otherwise one line per recorded digest in entry order with generation number, creation date, format, digest "
       "and action as recorded. Bounded: the verbose branch, the upward search of info and click's output plumbing - info / info -sf output "
-      "against the manifests read independently; no-history exit code.")
+      "against the manifests read independently; no-history exit code. Heap frame (vf/statics.py): the creation date a generation is listed with is "
+      "stored only by the constructor, the reader and the two commit functions.", static=True)
 other("C20", "Proved (main-thread side, under the rely condition that the checker thread writes latest_version once, None -> Version): "
       "Updater.needs_update raises nothing and returns a bool for every interleaving of that write with its four reads (volatile-field "
       "havoc); thread obligations on the AST: daemon flag set before start, the thread's frame is {latest_version, finished} and it prints "
